@@ -447,6 +447,13 @@ def ref_list(t, off, items, writes, top=False):
         if len(items) != 1 or items[0][0] or items[0][1][0] != 'e':
             raise Unjudged('braces around a scalar with designators / nested braces')
         writes.append((off, t.size * 8 if not hasattr(t, 'bfwidth') else t.bfwidth, items[0][1], t)); return
+    if t.kind == 'array' and t.base.kind == 'scalar' and items and not items[0][0] and items[0][1][0] == 'str' and t.base.size == items[0][1][2]:
+        # 6.7.9p14: a string literal, optionally enclosed in braces, initialises the whole character array; nothing can follow it inside those braces
+        if len(items) > 1: raise RefError('too many initializers: the braces enclose a string literal for the whole array')
+        val = items[0][1]
+        n = val[1] if t.n is None else t.n
+        writes.append((off, n * t.base.size * 8, val, t))
+        return n
     P = None; ended = False; maxidx = 0
     def limit(tt):
         return None if (tt is t and tt.kind == 'array' and tt.n is None) else nsub(tt)
@@ -602,9 +609,14 @@ def gen_inits(t, rnd, depth=0):
         if tt.kind == 'array' and tt.base.kind == 'scalar' and tt.base.ischar and rnd.random() < 0.6:
             n = rnd.choice([1, 2, (tt.n or 3), (tt.n or 3) + 1]) if tt.n else rnd.choice([1, 3])
             if tt.n and n > tt.n + 1: n = tt.n
+            k_ = rnd.random()
+            if k_ < 0.15: return ('list', [((), ('str', n, 1, lab()))])                                   # { "..." }
+            if k_ < 0.22: return ('list', [((), ('str', n, 1, lab())), ((), ('e', lab()))])               # invalid: something after the string in its braces
             return ('str', n, 1, lab())
         if tt.kind in ('struct', 'union') and rnd.random() < 0.15:
             return ('sv', tt, lab())
+        if rnd.random() < 0.06:
+            return ('list', [])          # C23 empty initialiser: the subobject is zero, the cursor moves on
         return ('list', list_for(tt, depth + 1))
     def rand_desig(tt, maxd):
         des = []; cur = tt
